@@ -68,6 +68,20 @@ func scCase(sc boxlib.Scenario, pos, alt int, isRoot bool) harness.Case {
 
 // oracleOnce suppresses repeated reports of the same signature within a case.
 func oracleOnce(c *harness.C, sc boxlib.Scenario, res *boxlib.Result, rp boxlib.Replay, reported map[string]bool) string {
+	if residueOnly {
+		// C15's thread-level family: the same exploration, bookkeeping clause only
+		boxlib.ResidueOracle(sc, res, rp, func(clause, sig, detail string) {
+			c.Add("violating_schedules:"+sig, 1)
+			if !reported[sig] {
+				reported[sig] = true
+				c.Violation(clause, sig, detail, rp)
+			}
+		})
+		if len(res.Residue) > 0 {
+			return "residue"
+		}
+		return "clean"
+	}
 	return boxlib.OracleCore(sc, res, rp, func(clause, sig, detail string) {
 		if hangOnly {
 			// the same exploration decides the buffer's part of C10: no input in no interleaving
@@ -87,13 +101,15 @@ func oracleOnce(c *harness.C, sc boxlib.Scenario, res *boxlib.Result, rp boxlib.
 }
 
 var hangOnly = os.Getenv("VERIF_FAMILY") == "hang"
+var residueOnly = os.Getenv("VERIF_FAMILY") == "residue"
 
 func gen(c *harness.C) []harness.Case {
-	if hangOnly {
+	if hangOnly || residueOnly {
 		if p := os.Getenv("VERIF_PROP"); p != "" {
 			c.Property = p
 		}
 	}
+	boxlib.Residue = residueOnly
 	c.Note("rule", "real msg.Box with sync/atomic rewritten to scheduling shims; threads = concurrent Box.HandleMessage (R) and Box.Send (S) calls; every interleaving at lock/atomic granularity within the preemption bound (2-thread scenarios: unbounded); oracle at the end of every interleaving; states = distinct schedule prefixes; distinct_nontrivial = distinct (scenario, outcome class, hand-over log)")
 	if !overlayActive() {
 		c.Note("c14-overlay", "shim overlay not active: scheduling points missing, exploration is vacuous")
